@@ -23,6 +23,7 @@ import (
 type caseJSON struct {
 	conslog.E2ECaseJSON
 	Panics  []bool           `json:"panics"`
+	Kinds   []string         `json:"panic_values,omitempty"`
 	Expired []int64          `json:"feeder_gave_up_at"`
 	Steered bool             `json:"steered_by_hook"`
 	Calls   map[string][]int `json:"calls_per_offset"`
@@ -55,14 +56,20 @@ func marksOf(m *sarama.ConsumerMessage) []int {
 	return out
 }
 
-func runOne(seed int64, sc conslog.E2EScenario, panics []bool) work {
+func runOne(seed int64, sc conslog.E2EScenario, panics []bool, kinds []int) work {
+	var kindNames []string
 	for i, p := range panics {
-		sc.Interceptors = append(sc.Interceptors, &conslog.CountingInterceptor{Index: i, Panics: p})
+		sc.Interceptors = append(sc.Interceptors, &conslog.CountingInterceptor{Index: i, Panics: p, Kind: kinds[i]})
+		if p {
+			kindNames = append(kindNames, conslog.PanicKinds[kinds[i]])
+		} else {
+			kindNames = append(kindNames, "-")
+		}
 	}
 	before := atomic.LoadInt32(&conslog.EscapedPanics)
 	res := conslog.RunE2E(seed, sc)
 	escaped := atomic.LoadInt32(&conslog.EscapedPanics) > before
-	js := caseJSON{E2ECaseJSON: conslog.E2EJSON(sc, res), Panics: panics, Expired: res.Stalled, Steered: res.Steered, Calls: map[string][]int{}}
+	js := caseJSON{E2ECaseJSON: conslog.E2EJSON(sc, res), Panics: panics, Kinds: kindNames, Expired: res.Stalled, Steered: res.Steered, Calls: map[string][]int{}}
 	var mon *cf.Monitor
 	// delivery itself must be exact (C03 / C11 monitor on the stream with the marks removed)
 	if m := conslog.E2EMonitor(sc, res); m != nil {
@@ -72,7 +79,7 @@ func runOne(seed int64, sc conslog.E2EScenario, panics []bool) work {
 			anyPanics = anyPanics || p
 		}
 		if escaped && anyPanics {
-			mon = &cf.Monitor{Signature: "consumer-interceptor:panic-escaped", What: "a panicking interceptor took a consumer goroutine down: " + m.What}
+			mon = &cf.Monitor{Signature: "c18:consumer:panic-escaped", What: fmt.Sprintf("a panicking interceptor (panic values %v) took a consumer goroutine down: %s", kindNames, m.What)}
 		}
 	}
 	stalled := map[int64]bool{}
@@ -159,6 +166,7 @@ func main() {
 	type job struct {
 		sc     conslog.E2EScenario
 		panics []bool
+		kinds  []int
 	}
 	var jobs []job
 	for i := 0; i < *n; i++ {
@@ -184,12 +192,21 @@ func main() {
 		sc.ChannelBuffer = []int{0, 0, 0, 1, 3}[rng.Intn(5)]
 		nrec := len(g.Log.Visible(sc.ReadCommitted, sc.Oldest))
 		panics := make([]bool, 1+rng.Intn(3))
+		kinds := make([]int, len(panics))
 		for k := range panics {
-			panics[k] = rng.Intn(4) == 0
+			panics[k] = rng.Intn(3) == 0
+			kinds[k] = rng.Intn(len(conslog.PanicKinds))
+		}
+		if i >= 1 && i <= 3*len(conslog.PanicKinds) {
+			// corpus: every kind of panic value at every chain position of a 3-interceptor chain, half of them with the
+			// reader stalling so that the panicking interceptor also runs on the slow-reader path
+			panics, kinds = make([]bool, 3), make([]int, 3)
+			panics[(i-1)%3] = true
+			kinds[(i-1)%3] = (i - 1) / 3
 		}
 		if i == 0 {
 			// the replayed witness: unbuffered channel, one interceptor, the reader pauses before the third message
-			sc.ChannelBuffer, panics = 0, []bool{false}
+			sc.ChannelBuffer, panics, kinds = 0, []bool{false}, []int{0}
 			sc.Stall[2] = true
 		} else {
 			for k := rng.Intn(3); k >= 0 && nrec > 0; k-- {
@@ -205,7 +222,7 @@ func main() {
 				sc.Script = append(sc.Script, conslog.Directive{Fault: 1, Err: 6})
 			}
 		}
-		jobs = append(jobs, job{sc, panics})
+		jobs = append(jobs, job{sc, panics, kinds})
 	}
 	results := make([]work, len(jobs))
 	var wg sync.WaitGroup
@@ -216,7 +233,7 @@ func main() {
 		go func(i int) {
 			defer wg.Done()
 			defer func() { <-sem }()
-			results[i] = runOne(*seed*104729+int64(i), jobs[i].sc, jobs[i].panics)
+			results[i] = runOne(*seed*104729+int64(i), jobs[i].sc, jobs[i].panics, jobs[i].kinds)
 		}(i)
 	}
 	wg.Wait()
